@@ -535,15 +535,17 @@ class IntersectionMatcher(AdditiveBiMatcher):
                 # current block does not cover the blocks A skips over)
                 sk = a.skip_to_quality(minquality - b.max_quality())
                 skipped += sk
-                if not sk and a.is_active():
-                    # The matcher couldn't skip ahead for some reason, so just
-                    # advance and try again
+                if a.is_active() and a.id() == b.id():
+                    # The matcher is still on the current document (whose
+                    # score cannot reach the minimum, see the loop test), so
+                    # just advance and try again. (Do not rely on the number
+                    # of skipped blocks: some matchers move and report 0.)
                     a.next()
             else:
                 # And vice-versa
                 sk = b.skip_to_quality(minquality - a.max_quality())
                 skipped += sk
-                if not sk and b.is_active():
+                if b.is_active() and b.id() == a.id():
                     b.next()
 
             if not a.is_active() or not b.is_active():
